@@ -473,8 +473,7 @@ def c01_matchers(v, text="", features=None, ode=None, ref=None, code=None, reche
     if kind == "value" and ref is not None and root in ref.assigns and ode is not None:
         import sympy
 
-        if inverse_trig_of_constant(ref, root) and ode[root].expr.has(sympy.pi) and "pi" not in ref.assigns[root].rhs:
-            # (the text does not mention pi: it can only come from the rewrite)
+        if inverse_trig_of_constant(ref, root) and ode[root].expr.has(sympy.pi):
             return "C01-inverse-trig-of-constant-rewritten-with-cancellation"
     if kind == "value" and ode is not None and recheck:
         try:
